@@ -443,7 +443,7 @@ class Evaluator:
                 return [(s, SV(TFunc(), (), py=Static(('extmethod', v.ty.cls, name), recv=v)))]
             res = []
             for s2, val in self.read_attr_obj(v, name, s):
-                s2 = s2.assume(*self.W.type_facts(val, s2.heap, s2.entry_heap))
+                s2 = s2.assume(*self.W.type_facts(val, s2.heap, s2.entry_heap, owner=v.term))
                 res.append((s2, val))
             return res
         if isinstance(v.ty, TOpt):
